@@ -36,56 +36,8 @@ Fixpoint gdowild (fuel : nat) (flags : N) (prev : option N) (p t : bytes) : wm :
     else if pc =? cQM then
       if pn && (tc =? cSLASH) then WNoMatch else gdowild f flags (Some pc0) p1 t1
     else if pc =? cSTAR then
-      let p2 := drop_stars p1 in
-      let double := match p1 with c :: _ => c =? cSTAR | [] => false end in
-      let boundary :=
-          match prev with None => true | Some c => c =? cSLASH end &&
-          match p2 with
-          | [] => true
-          | c :: r => (c =? cSLASH) ||
-                      ((c =? cBSL) && match r with d :: _ => d =? cSLASH | [] => false end)
-          end in
-      let shortcut : wm :=
-          if double && pn && boundary then
-            match p2 with
-            | c :: p3 => if c =? cSLASH then gdowild f flags None p3 t else WNoMatch
-            | [] => WNoMatch
-            end
-          else WNoMatch in
-      match shortcut with
-      | WMatch => WMatch
-      | WFuel => WFuel
-      | _ =>
-        let match_slash := if double then negb pn || boundary else negb pn in
-        match p2 with
-        | [] => if negb match_slash && has_slash t then WNoMatch else WMatch
-        | q0 :: q1 =>
-          if negb match_slash && (q0 =? cSLASH) then
-            match after_slash t with
-            | None => WNoMatch
-            | Some t' => gdowild f flags (Some cSLASH) q1 t'
-            end
-          else
-            let lit := negb (is_glob_special q0) in
-            let pcf := fold cf q0 in
-            (fix sl (skipped : bool) (t : bytes) {struct t} : wm :=
-               match t with
-               | [] => if skipped then WNoMatch else WAbortAll
-               | c :: t' =>
-                 let try (tch : N) : wm :=
-                     let m := gdowild f flags None p2 t in
-                     if negb (wm_eqb m WNoMatch) then
-                       if negb match_slash || negb (wm_eqb m WAbortStarStar) then m else sl false t'
-                     else if negb match_slash && (tch =? cSLASH) then WAbortStarStar
-                     else sl false t' in
-                 if lit then
-                   if negb match_slash && (c =? cSLASH) then WNoMatch
-                   else if fold cf c =? pcf then try (fold cf c)
-                   else sl true t'
-                 else try c
-               end) false t
-        end
-      end
+      (* 2.39.5 returns WM_NOMATCH on the three abort paths of case '*' *)
+      star_case (gdowild f flags) pn cf WNoMatch WNoMatch (fun _ : bool => WNoMatch) prev p1 t
     else if pc =? cLB then
       match bracket cf tc p1 with
       | (CAbort, _) => WAbortAll
